@@ -148,7 +148,15 @@ def gen_read(rng, tier):
                     closed[h] = True
     if not ops:
         ops.append({"h": 0, "op": "readall"})
-    return {"pop": "read", "handles": handles, "ops": ops, "chunks": content.chunk_plan(rng), "rseed": rng.u64() >> 8}
+    chunks = content.chunk_plan(rng)
+    rseed = rng.u64() >> 8
+    if any(hd["content"].get("n", 0) > (1 << 19) for hd in handles) and chunks[1] and sum(chunks[1]) < 512 * len(chunks[1]):
+        # more than a megabyte in transfers of a few bytes is a million system calls: such a run comes
+        # close to the CPU-time limit of a simulated process, and where it is cut is not decided by the
+        # simulator.  Big inputs get coarse (still odd-sized) transfers; no PRNG draw, so every other
+        # scenario of the seed is unchanged.
+        chunks = [1, [[8191], [4097, 1, 8192], [65536], [1000, 12288]][rseed % 4]]
+    return {"pop": "read", "handles": handles, "ops": ops, "chunks": chunks, "rseed": rseed}
 
 
 def _gen_wdata(rng):
